@@ -714,7 +714,7 @@ static int wr_line (
 	char buffer[ILL_namebufsize];
 	int rval = 0;
 
-	rval = vsprintf (buffer, format, argptr);
+	rval = vsnprintf (buffer, sizeof (buffer), format, argptr);
 	if (rval > 0)
 	{
                 /* Bico -- OPTERON DEBUGGING 051005  */
